@@ -149,7 +149,8 @@ class C06(Check):
         return {"runs": 1500, "wall_s": 100} if tier == "quick" else {"runs": 40000, "wall_s": 1500}
 
     def generate(self, rng, tier):
-        kind = rng.weighted([("faults", 12), ("crashed_writer", 3), ("journal+faults", 3), ("journal", 1), ("orphan", 1), ("clean", 1)])
+        kind = rng.weighted([("faults", 12), ("crashed_writer", 3), ("journal+faults", 3), ("journal", 1), ("orphan", 1), ("clean", 1),
+                             ("fastcommit", 3)])
         invs = rng.sample(RO + EXTRA + ["e2fsck-y", "e2fsck-p", "e2fsck-n", "debugfs", "debugfs"], rng.range(4, 8))
         spec = {"world_seed": rng.u64(), "state": kind, "faults": None, "nfaults": rng.weighted([(1, 4), (2, 3), (3, 2), (5, 1)]),
                 "invocations": invs, "dbg_seed": rng.u64(), "read_fault": None, "aux_seed": rng.u64(), "truncate": None}
